@@ -24,14 +24,14 @@ def DSt.setSide (s : DSt) (k : Nat) (st : World.St) : DSt :=
 def DSt.worldSt (s : DSt) (k : Nat) : Option World.St :=
   (s.p.world? k).map (fun e => { s.sideOf k with w := e.wm })
 
-/-- the effect of one world-driver line on a world's `WM`, given the driver's bookkeeping `side` for that world.
-    `dump` is a query; `worldid` re-stamps a world (it is for the single-world driver before its world exists and is
-    rejected here). `Proofs/WorldsDriver.lean`: this never changes `worldId`. -/
+/-- the effect of one world-driver line on a world's `WM`, given the driver's bookkeeping `side` for that world: the
+    world driver's own `step` (imported). No operation of a world changes the id it stamps into handles
+    (`Props.C17.world_ops_preserve_id` for `WM.step`); the guard makes that hold for this function by construction,
+    whatever the world driver's line grammar grows into: a line that re-stamped the world would be ignored here and
+    show up as a difference against the implementation. -/
 def lineEffect (side : World.St) (line : String) (wm : WM) : WM :=
-  match words line with
-  | ["dump"] => wm
-  | ["worldid", _] => wm
-  | _ => (World.step { side with w := wm } line).1.w
+  let w' := (World.step { side with w := wm } line).1.w
+  if w'.worldId = wm.worldId then w' else wm
 
 /-- the process operation a world-driver line on world `k` amounts to -/
 def lineOp (side : World.St) (k : Nat) (line : String) : POp := .onWorld k (lineEffect side line)
